@@ -442,13 +442,11 @@ _POS_KINDS = ('n', 'n', 'as', 'classes')
 
 def _drawn_4(tier):
     m4 = st.one_of(G.masks(4), G.dag_biased(4), G.dag_biased(4), G.cycle_biased(4), G.layered(4))
-    return st.lists(_decorated(G.drawn_graph(4, m4, _POS_KINDS), 2), min_size=4,
-                    max_size=8).map(lambda gs: {'graphs': gs})
+    return G.batch_of(_decorated(G.drawn_graph(4, m4, _POS_KINDS), 2), (1, 6, 4, 8, 5, 7))
 
 
 def _random_big(tier):
-    return st.lists(_decorated(G.random_graph(5, 8, _POS_KINDS, limit=80), 1), min_size=2,
-                    max_size=3).map(lambda gs: {'graphs': gs})
+    return G.batch_of(_decorated(G.random_graph(5, 8, _POS_KINDS, limit=80), 1), (1, 3, 2, 3, 4))
 
 
 SUBS = [
